@@ -18,7 +18,8 @@
      C11_read_one_plain      a raw event without a structural bit only appends its InotifyEvent
      C11_reader_transparent  reading the kept part of a batch: same final state, kept part of the output
      C11_kernel_twin         same operation, watches with mask M' inside M: the second queue is the sent part of
-                             the first, up to the kernel's coalescing (kcollapse)
+                             the first, up to the kernel's coalescing (kcollapse; the kernel merges a record that agrees
+                             with the last unread one in descriptor, mask and name - not the cookie)
      C11_kernel_no_coalescing    within one operation from a drained queue nothing is coalesced
      C11_reader_mask_irrelevant  the reader's bookkeeping does not depend on the mask of its watches
      C11_group_transparent   grouping the kept part of a batch = handed_over of the groups of the whole batch
@@ -191,7 +192,9 @@ Theorem C11_kernel_twin : forall M M', N.land M' M = M' -> N.land IN_ISDIR M' = 
 Proof. exact kernel_op_twin. Qed.
 Print Assumptions C11_kernel_twin.
 
-Theorem C11_kernel_no_coalescing : forall k t o, k_queue k = [] -> NoDup (k_queue (kernel_op k t o)).
+(* (statement adapted to the kernel's comparison, which ignores the cookie: the records of one operation differ
+   pairwise in (descriptor, mask, name) - stronger than NoDup of the records) *)
+Theorem C11_kernel_no_coalescing : forall k t o, k_queue k = [] -> NoDup (map kkey (k_queue (kernel_op k t o))).
 Proof. exact kernel_op_nodup. Qed.
 Print Assumptions C11_kernel_no_coalescing.
 
